@@ -243,6 +243,9 @@ def observe_pydoctor(record: Dict[str, Any]) -> None:
             import datetime as _dt
             record["buildtime_seconds"] = int((system.buildtime - _dt.datetime(1970, 1, 1)).total_seconds())
             record["summary_pages"] = [p.__name__ for p in summary.summaryPages(system)]
+            from pydoctor.templatewriter import search as _search
+            record["page_files"] = [p.filename for p in list(summary.summaryPages(system)) + list(_search.searchpages)]
+            record["any_root_visible"] = any(o.isVisible for o in system.rootobjects)
             urls = {}
             for o in system.allobjects.values():
                 if o.documentation_location is model.DocLocation.OWN_PAGE:
